@@ -119,6 +119,14 @@ def build(h, tier, wd, variant_defs=None):
     b.ir_lines = text.count('\n')
     return b
 
+ACTIVE = set()      # process groups of running solver processes (killed when the driver is terminated)
+def kill_active(*_):
+    import signal
+    for pid in list(ACTIVE):
+        try: os.killpg(pid, signal.SIGKILL)
+        except Exception: pass
+    os._exit(143)
+
 def limit_mem(gb):
     def f():
         resource.setrlimit(resource.RLIMIT_AS, (int(gb * 2**30), int(gb * 2**30)))
@@ -144,13 +152,16 @@ def cbmc_once(b, tier, extra_unwindset):
         import signal
         pr = subprocess.Popen(['/usr/bin/time', '-f', 'RSSKB=%M', '-o', os.path.join(b.wd, 'rss.txt')] + cmd, stdout=fo, stderr=subprocess.PIPE, text=True,
                               preexec_fn=limit_mem(mem), cwd=b.wd, start_new_session=True)
+        ACTIVE.add(pr.pid)
         try:
             _, err = pr.communicate(timeout=tl)
         except subprocess.TimeoutExpired:
             try: os.killpg(pr.pid, signal.SIGKILL)      # the solver is a grandchild (behind /usr/bin/time): kill the whole group
             except Exception: pass
             pr.wait()
+            ACTIVE.discard(pr.pid)
             raise Inconclusive('cbmc timeout after %ds (no verdict): %s' % (tl, h['name']))
+        ACTIVE.discard(pr.pid)
         class R: pass
         r = R(); r.returncode = pr.returncode; r.stderr = err or ''
     b.wall = time.time() - t0
